@@ -172,7 +172,11 @@ func loadWorld(repo string, verifContracts string) (*World, error) {
 				return nil, fmt.Errorf("%s:%d: duplicate contract for %s", c.File, c.Line, key)
 			}
 			if err := checkHeader(fi, c); err != nil {
-				return nil, err
+				// the function's signature no longer matches its contract: the contract cannot be applied; its
+				// obligations are then missing from the run and reported against the ledger
+				w.Notes = append(w.Notes, err.Error())
+				w.Contracts = append(w.Contracts, c)
+				continue
 			}
 			fi.Contract = c
 			w.Contracts = append(w.Contracts, c)
